@@ -22,6 +22,9 @@ type RecMetrics struct {
 	Last   map[string]float64
 	Count  map[string]float64
 	Panics []string
+	// BeforeEmit, when set, runs before an emission is recorded: the world uses it to make the few
+	// emissions that node code performs with no lock held at the head of a callback a scheduling point
+	BeforeEmit func(name string)
 }
 
 func NewRecMetrics(inner metrics.Metrics) *RecMetrics {
@@ -52,6 +55,9 @@ func toF(v interface{}) float64 {
 }
 
 func (r *RecMetrics) rec(kind, name string, v interface{}, tags []metrics.T) {
+	if r.BeforeEmit != nil {
+		r.BeforeEmit(name)
+	}
 	names := make([]string, len(tags))
 	for i, t := range tags {
 		names[i] = t.Name
